@@ -742,6 +742,10 @@ def check(run):
     from . import c06
     _pd, _A, _B = c06.siblings(run)
     c06.r06f(run, _A, _B)
+    # additionalProperties says whether unknown keys are rejected / kept / converted: only if the extra-key pass runs
+    # whenever the addition policy says so (shared with C06 / C12)
+    run.rules_run.append("R06i")
+    c06.r06i(run, _A, _B)
     # the generator describes each class by parser.options / output_options of that class: the parser must parse a nested
     # class under exactly those (shared with C18)
     from . import c18
